@@ -213,3 +213,29 @@ Example C08_example_stop_in_batch :
   (forall t, t < 2 -> step cfg3 s t 0 = None).
 Proof. exact run3_stop_in_batch. Qed.
 Print Assumptions C08_example_stop_in_batch.
+
+(* The kind table (Model/ThreadPool.v [api_kind], checked against the library by calling every
+   API with a spread of arguments): uv_queue_work and uv_random are CPU work, every asynchronous
+   uv_fs_* is fast I/O, uv_getaddrinfo and uv_getnameinfo are slow I/O for EVERY argument, in
+   particular every flags value of uv_getnameinfo.  The slow-I/O cap applies to exactly these
+   name lookups: no set of more than (nthreads+1)/2 workers executes requests submitted by a
+   lookup API, and a request of any other API never counts against the cap (and so is covered
+   by C08_fast_not_starved). *)
+Theorem C08_kind_table :
+  (forall flags, api_kind (AGetnameinfo flags) = KSlow) /\
+  (forall numeric, api_kind (AGetaddrinfo numeric) = KSlow) /\
+  (forall a, api_kind a = KSlow <-> is_lookup a = true) /\
+  forall (c : config) (progs : list (list op)) (sched : list (nat * nat)),
+  let s := run c (init c progs) sched in
+  (forall ws : list nat,
+     NoDup ws ->
+     (forall w, In w ws -> exists r b a, wk s w = WRun r b /\ is_lookup a = true /\
+                                         r_kind (reqs s r) = api_kind a) ->
+     length ws <= threshold (c_n c)) /\
+  (forall w r b a, wk s w = WRun r b -> is_lookup a = false -> r_kind (reqs s r) = api_kind a ->
+     b = false).
+Proof.
+  split; [reflexivity|]. split; [reflexivity|]. split; [exact kind_table_lookup|].
+  exact kind_table_cap.
+Qed.
+Print Assumptions C08_kind_table.
